@@ -91,6 +91,7 @@ package failsafe
 // ---------------------------------------------------------------------------------------------
 // C17 -- statistics
 //@ func newExecution
+//@   props C02, C04, C05, C06, C07, C08, C09, C10, C11, C16, C17
 //@   ensures [C17.new] fresh(result) && execWellFormed2(result, ctx) && !held(result.mtx) && result.attempts.v == 1 && result.retries.v == 0 && result.hedges.v == 0 && result.executions.v == 0 && !result.isHedge && result.cancelFunc == nil && cellof(result.canceledResult, *common.PolicyResult) == nil && result.lastError == nil
 //@   modifies nothing
 //@ macro execWellFormed2(e, ctx) = e != nil && e.mtx != nil && e.attempts != nil && e.retries != nil && e.hedges != nil && e.executions != nil && e.canceledResult != nil && e.ctx == ctx && e.attempts != e.retries && e.attempts != e.hedges && e.attempts != e.executions && e.retries != e.hedges && e.retries != e.executions && e.hedges != e.executions
@@ -212,6 +213,7 @@ package failsafe
 
 // the base function: fn exactly once, then the execution is counted, result wrapped as a success of "no policy"
 //@ func (*executor).execute$1
+//@   props C02, C04, C05, C06, C07, C08, C09, C10, C11, C16, C17
 //@   beforecall fn: assert [C14.user_callback_gets_copy] withExec ==> userCopy(callarg_0)
 //@   requires fn != nil && typeis(exec, *execution) && execWellFormed(asref(exec, *execution)) && !held(asref(exec, *execution).mtx) && asref(exec, *execution).executions.v <= 1073741824
 //@   ensures [C01.base.once] ncalls(fn) == 1
@@ -224,6 +226,7 @@ package failsafe
 
 // async: a cancellable child context, an execution that owns the cancel function (fix for F2), one runner
 //@ func (*executor).executeAsync
+//@   props C02, C04, C05, C06, C07, C08, C09, C10, C11, C16, C17
 //@   requires e != nil && e.ctx != nil
 //@   let r := asref(result, *executionResult)
 //@   ensures [C15.async.repr] typeis(result, *executionResult) && fresh(r) && r.execution != nil && execWellFormed(r.execution) && r.execution.cancelFunc != nil && uf("ctxof", r.execution.cancelFunc) == r.execution.ctx && r.doneChan != nil && !closed(r.doneChan) && chancap(r.doneChan) == 1 && !atomval(r, "done", "bool") && atomval(r, "result", "ref") == nil
@@ -233,6 +236,7 @@ package failsafe
 
 // the runner: execute once, then publish its result (listeners have run inside execute)
 //@ func (*executor).executeAsync$1
+//@   props C02, C04, C05, C06, C07, C08, C09, C10, C11, C16, C17
 //@   requires result != nil && result.doneChan != nil && !closed(result.doneChan)
 //@   requires e != nil && exec != nil && fn != nil && execWellFormed(exec) && !held(exec.mtx)
 //@   requires forall j int :: 0 <= j && j < len(e.policies) ==> e.policies[j] != nil
@@ -259,6 +263,7 @@ package failsafe
 //@ macro composedAt(e, j, n) = allocated(payload(exOf(e, j))) && ncalls(e.policies[j].ToExecutor) == 1 && ncalls(exOf(e, j).Apply) == 1 && (j == n-1 ==> clofn(lastarg(exOf(e, j).Apply, 0)) == fnid("(*executor).execute$1")) && (j < n-1 ==> lastarg(exOf(e, j).Apply, 0) == compOf(e, j+1))
 
 //@ func (*executor).execute
+//@   props C02, C04, C05, C06, C07, C08, C09, C10, C11, C16, C17
 //@   requires e != nil && fn != nil && outerExec != nil && execWellFormed(outerExec) && !held(outerExec.mtx)
 //@   requires forall j int :: 0 <= j && j < len(e.policies) ==> e.policies[j] != nil
 //@   premise forall j int, k int :: 0 <= j && j < k && k < len(e.policies) ==> e.policies[j] != e.policies[k]
@@ -288,7 +293,7 @@ package failsafe
 //@   builder
 //@   requires e != nil
 //@   let c := asref(result, *executor)
-//@   ensures [C16.executor.copy_keeps_listeners+C01.executor.copy_keeps_policies+C11.executor.context_is_the_given_one+C08.executor.context_is_the_given_one+C18.executor.context_is_the_given_one] typeis(result, *executor) && fresh(c) && len(c.policies) == len(e.policies) && (forall j int :: 0 <= j && j < len(e.policies) ==> c.policies[j] == e.policies[j]) && c.onDone == e.onDone && c.onSuccess == e.onSuccess && c.onFailure == e.onFailure && c.ctx == ite(ctx != nil, ctx, e.ctx)
+//@   ensures [C16.executor.copy_keeps_listeners+C01.executor.copy_keeps_policies+C11.executor.context_is_the_given_one+C08.executor.context_is_the_given_one+C18.executor.context_is_the_given_one+C14.derived_executor_is_a_private_copy] typeis(result, *executor) && fresh(c) && len(c.policies) == len(e.policies) && (forall j int :: 0 <= j && j < len(e.policies) ==> c.policies[j] == e.policies[j]) && c.onDone == e.onDone && c.onSuccess == e.onSuccess && c.onFailure == e.onFailure && c.ctx == ite(ctx != nil, ctx, e.ctx)
 //@   modifies nothing
 
 // executor construction and listener registration: each setter changes its own listener only
@@ -357,6 +362,7 @@ package failsafe
 //@   havoc
 //@   modifies calls(fn)
 //@ func (*executor).executeSync
+//@   props C02, C04, C05, C06, C07, C08, C09, C10, C11, C16, C17
 //@   requires e != nil && fn != nil && e.ctx != nil && (forall j int :: 0 <= j && j < len(e.policies) ==> e.policies[j] != nil)
 //@   oldlet nx := 0
 //@   oncall (*executor).execute: nx := nx + 1; er := callresult; xfn := callarg_1; xexec := callarg_2; xwith := callarg_3
@@ -491,6 +497,13 @@ package failsafe
 // plain getters of an execution's frozen fields (the getters of the lock-guarded fields -- LastResult, LastError,
 // AttemptStartTime, ElapsedAttemptTime -- are not under contract: they read without the lock and are safe only on the
 // copies that user code is handed, which is what the C14.callback_gets_copy obligations establish)
+// LastError: the recorded error, or the context's error when none is recorded and the context is done. The blocking waits
+// of the rate limiter return it after exec.Canceled() fired (their contract assumes it is non-nil then): that is this clause.
+//@ func (*execution).LastError
+//@   unguarded lastError: read on a private copy, or on the caller's own goroutine after the cancellation that wrote it was observed through the Done channel
+//@   requires e != nil && e.ctx != nil
+//@   ensures [C08.lasterror.reports_cancellation+C05.cancelled_wait_reports_an_error+C17.lasterror.recorded_one_first] (e.lastError != nil ==> result == e.lastError) && (e.lastError == nil && ret(e.ctx.Err, 1) != nil ==> result != nil) && (e.lastError == nil && ret(e.ctx.Err, 1) == nil ==> result == nil)
+//@   modifies canceled(e.ctx), calls(e.ctx.Err)
 //@ func (*execution).Context
 //@   requires e != nil && e.ctx != nil
 //@   ensures [C08.getter.context] result == e.ctx && result != nil
@@ -501,7 +514,7 @@ package failsafe
 //@   modifies canceled(e.ctx), calls(e.ctx.Err)
 //@ func (*execution).Canceled
 //@   requires e != nil && e.ctx != nil
-//@   ensures [C08.getter.canceled_channel] result == ret(e.ctx.Done, 1) && ncalls(e.ctx.Done) == 1
+//@   ensures [C08.getter.canceled_channel+C13.wait_ends_only_when_the_context_is_done+C05.wait_ends_only_when_the_context_is_done+C09.wait_ends_only_when_the_context_is_done+C02.wait_ends_only_when_the_context_is_done] result == ret(e.ctx.Done, 1) && ncalls(e.ctx.Done) == 1
 //@   modifies calls(e.ctx.Done)
 //@ func (*execution).StartTime
 //@   requires e != nil
